@@ -3,7 +3,9 @@ OPS = ['<<', '<=', '=', '>=', '>>', '<', '>']
 NAMES = ['python', 'libc6', 'g++', 'lib-x.y', 'a', 'foo:any', 'libstdc++6', 'python3.11', 'x-y+z', 'b:native', 'ab']
 ARCHS = ['i386', '!i386', 'linux-any', 'any-amd64', '!hurd-i386', 'amd64']
 WS = [' ', '  ', '\t', '\n', ' \n ', '\n ', '']
-VERS = ['1.0', '2:1.0~rc1-2', '0', '1-1', '1.2.3+b1', '7~', '1:0', '3.0-0ubuntu1', '10', '1.0-1~bpo']
+VERS = ['1.0', '2:1.0~rc1-2', '0', '1-1', '1.2.3+b1', '7~', '1:0', '3.0-0ubuntu1', '10', '1.0-1~bpo',
+        # spellings a normaliser would rewrite: the relationship holds the version as spelled
+        '0:1.2', '01:1.2', '1.2-0', '00:1-00', '1.02', '1.2-00', '0:0']
 
 
 def alt(rng):
